@@ -9,7 +9,7 @@ THEOREMS = ["Rsp.Props.C12.run_inv", "Rsp.Props.C12.retries_bounded_and_spaced",
             "Rsp.Props.C12.reset_resends_without_consuming", "Rsp.Props.C12.loss_table", "Rsp.Props.C12.incLost_saturates",
             "Rsp.Props.C12.wait_bound_le_timeout", "Rsp.Tie.C12.defaults_tie", "Rsp.Tie.C12.period_tie",
             "Rsp.Props.StreamClient.streamConnect_state", "Rsp.Props.StreamClient.connectWait_spacing", "Rsp.Props.StreamClient.connectWait_late",
-            "Rsp.Props.C12.block_wins", "Rsp.Props.C12.template_when_block_silent", "Rsp.Props.C12.default_when_both_silent", "Rsp.Props.C12.withDefault_cases"]
+            "Rsp.Props.C12.block_wins", "Rsp.Props.C12.template_when_block_silent", "Rsp.Props.C12.default_when_both_silent", "Rsp.Props.C12.withDefault_cases", "Rsp.Props.C12.late_reply_ignored"]
 RULE = ("the REAL clientwr thread of every server, stepped one scheduling at a time under a virtual clock (pthread_cond_timedwait replaced by a park/step handshake): "
         "RetryCount 0..10 x RetryInterval 1..60 x four status-server modes x reliable/unreliable fake transports, schedules of {time advance to expiry-1/expiry/expiry+1, "
         "spurious wake-up, reply, connection reset, probe}; compared on transmissions with virtual timestamps, slot tries/expiry, loss counters, mode switches and the "
